@@ -26,7 +26,9 @@ CHECKS["C09"] = (
     "(small identifier universe) to a stated depth, every transition executed on a fresh replay of the real object, "
     "states deduplicated on the raw private containers incl. container types, all public views compared with a dict-based "
     "reference model in every generated successor, read-only queries checked as self-loops. Reports states, transitions, "
-    "depth and frontier per class and pass.",
+    "depth and frontier per class and pass. The search starts from the empty graph and from fixed non-initial roots "
+    "(role-carrying bonds, a four-atom skeleton with descriptors, with stereo changes); long deterministic histories on one "
+    "live object complement the depth bound.",
     "Trusted: the reference model (smgverif/model/refgraph.py) and the well-formedness table of DESIGN.md 4.3; bounds: "
     "3-4 atom identifiers, elements {C,H}, depth per class as reported in the evidence.",
     "DESIGN.md 3, 5/C09")
@@ -45,7 +47,10 @@ CHECKS["C01"] = (
     "Every spec of complete bounded universes of the four classes is pushed through every renaming (all n! bijections up to "
     "n=4/5), every insertion order family, and every symmetry-equivalent rewriting of every descriptor (all proper elements with "
     "equal parity, all improper ones with opposite parity), static and inside stereo changes; ==, reversed ==, is_isomorphic "
-    "and reflexivity must hold on each. Empty, isolated-atom and disconnected graphs are in the universes.",
+    "and reflexivity must hold on each. Empty, isolated-atom and disconnected graphs, 7/8-coordinate centres and "
+    "graphs of 130 (thorough 260) atoms are in the universes. Library-derived twins (copy, construct, subgraph, compose, relabel "
+    "round trip, JSON) and every sequence of two (thorough three) public mutator calls with hash/== evaluated after each call "
+    "must equal a freshly built graph with the content the reference model predicts.",
     "Trusted: refgraph/refstereo construct the variants; bounds: graphs up to 4-5 atoms completely, up to 14 atoms for the "
     "symmetric family; stereo-valid graphs only.",
     "DESIGN.md 5/C01, 4.1, 4.4")
@@ -53,14 +58,16 @@ CHECKS["C02"] = (
     ENUM + " (all ordered pairs, oracle = backtracking search over all atom bijections)",
     "All ordered pairs inside complete labelled universes (MolGraph n<=3 all x all, n=4 x representatives; thorough all 1.2M "
     "labelled pairs n<=4), representatives x representatives for larger universes of all four classes, single-feature "
-    "mutations of symmetric graphs and all cross-class pairs: whenever the library says equal, a brute-force search must find a "
+    "mutations of symmetric graphs, all cross-class pairs, all 26 pairs of non-isomorphic graphs with <=7 vertices that colour "
+    "refinement cannot separate under every renumbering, and descriptor-class sequences over identical atom tuples: whenever the library says equal, a brute-force search must find a "
     "bijection preserving elements, bonds, bond roles, descriptors up to symmetry and stereo changes.",
     "Trusted: refiso (self-tested against n! enumeration) and refstereo; fully specified parities only.",
     "DESIGN.md 5/C02, 4.2")
 CHECKS["C03"] = (
     ENUM + "; oracle-partition of complete labelled universes; fresh interpreters under a list of PYTHONHASHSEED values",
     "hash(G)==hash(G') on every same-graph variant of C01's enumeration, one hash per oracle isomorphism class in complete "
-    "labelled universes, set/dict membership, and identical hash lines from fresh interpreter processes under each listed "
+    "labelled universes, set/dict membership, hash of every mutator-call sequence of length <=2 (thorough 3) against a freshly "
+    "built twin, and identical hash lines from fresh interpreter processes under each listed "
     "string-hash seed.",
     "Trusted: refiso/refstereo; the 2^32 seed space is cut to the listed seeds (quick 6, thorough 34).",
     "DESIGN.md 5/C03")
@@ -68,7 +75,8 @@ CHECKS["C16"] = (
     ENUM + " (all pairs of the three stated families; integer comparison of hashes)",
     "All pairs of class representatives whose (element, neighbour elements) multisets differ, all 70 element-distinct "
     "tetrahedral quadruples and all 784 XYC=CZW double bonds with 0-2 atom chains (R/S, E/Z), all pairs of reaction graph "
-    "representatives whose reactant/product/TS multisets differ and every reaction vs its reverse: hashes must differ.",
+    "representatives whose reactant/product/TS multisets differ, every reaction vs its reverse, and all 15625 role assignments "
+    "on four labelled atoms (three element assignments, both reaction classes) decided by hash buckets: hashes must differ.",
     "Trusted: the multiset computed from the reference model; E/Z collisions of the unchanged tree are listed input by input "
     "in known_findings.json (pinned StereoMolGraph hash values forbid a repair).",
     "DESIGN.md 5/C16")
@@ -118,12 +126,14 @@ CHECKS["C17"] = (
     "Every spec with <=5 atoms x every subset S passed as list/tuple/set/frozenset/dict keys/generator/iterator: subgraph equals "
     "the induced labelled subgraph of the reference model; components equal the union-find partition; compose over all 3^n "
     "covers by two (overlapping) pieces equals the labelled union with later-wins; composing the component subgraphs in every "
-    "order reproduces the graph.",
+    "order reproduces the graph; graphs of 126-300 (thorough 1100) atoms: components, node components, compose of the "
+    "component subgraphs, a large induced subgraph.",
     "Trusted: refgraph.subgraph/compose/components.", "DESIGN.md 5/C17")
 
 CHECKS["C07"] = (
     "exhaustive enumeration of atom permutations x a finite rigid-motion / reflection / noise grid; differential oracle",
-    "Guarded geometries (templates of all five perception paths, repository XYZ data, embedded organics) under ALL atom "
+    "Guarded geometries (templates of all five perception paths, the same templates among spectator atoms with identifiers "
+    "scattered by affine index maps mod 23, repository XYZ data, embedded organics) under ALL atom "
     "permutations up to 7 atoms (families above), the 24 cube rotations composed with a generic rotation and translation, three "
     "reflections and three noise levels; the perceived graph renamed back must have the same bonds and spatially identical "
     "descriptors (mirror images under reflection) and every descriptor must name the centre and exactly its bonded neighbours; "
@@ -134,14 +144,13 @@ CHECKS["C18"] = (
     ENUM + " (all connectivity matrices n<=4 x element lists; all valence-complete molecules up to 3/4 heavy atoms x atom orders)",
     "Structural part on every symmetric 0/1 matrix with n<=4 and every element list; chemical part on every connected neutral "
     "closed-shell multigraph of <=3 (thorough 4) heavy atoms from C,N,O,S(II/VI),P(III/V),halogens with H filled in, plus 28 "
-    "listed aromatic/cumulated systems, each in all atom orders (small) or shifts/reversal/transpositions: standard valences, no "
-    "charges, no radicals, support equals connectivity.",
-    "Trusted: the enumerator's valence bookkeeping; 215 exotic hypervalent molecules of the thorough tier are listed in "
-    "known_findings.json.", "DESIGN.md 5/C18")
+    "listed aromatic/cumulated systems and all C4-C5 (thorough C6) hydrocarbons, each in all atom orders (small) or "
+    "shifts/reversal/transpositions: standard valences, no charges, no radicals, support equals connectivity.",
+    "Trusted: the enumerator's valence bookkeeping.", "DESIGN.md 5/C18")
 CHECKS["C20"] = (
     ENUM + " (value grid x element cycle x comment lines; all 118x118 element pairs at both sides of the cut-off)",
     "XYZ write/read round trip over a coordinate value grid (signs, magnitudes up to 1e6, half-ulp-of-print cases), all 118 "
-    "elements, 1..40 atoms and 11 comment lines; distance connectivity for all 13924 element pairs just below/above the cut-off "
+    "elements, 1..1001 (thorough 10001) atoms and 11 comment lines; distance connectivity for all 13924 element pairs just below/above the cut-off "
     "through the matrix API, the scalar API and MolGraph.from_geometry; invariance under rigid motion and atom permutation.",
     "Trusted: the covalent radii table (read as data).", "DESIGN.md 5/C20")
 
@@ -150,19 +159,22 @@ CHECKS["C12"] = (
     "Every TH/SP/TB/OH permutation label of a complex with pairwise distinct ligands under all n! RenumberAtoms orders, every "
     "rooted SMILES re-spelling (which changes neighbour order and label) and the converter option combinations: equal graphs and "
     "hashes inside a stereoisomer, 2/3/20/30 pairwise unequal classes across labels; organic molecules: all stereoisomers x "
-    "renumbering family x rooted re-spellings; map-number import equals the renamed index import.",
+    "renumbering family x rooted re-spellings (incl. 15 charged delocalised species whose resonance forms differ); map-number "
+    "import equals the renamed index import; class-level entry points agree with the converter.",
     "Trusted: RDKit 2024.09.3 (RenumberAtoms, SMILES writer/reader for non-tetrahedral stereo, EnumerateStereoisomers).",
     "DESIGN.md 5/C12")
 CHECKS["C13"] = (
     ENUM + " (every descriptor ordering x parity of every coordination class, two identifier pools)",
     "All 48/48/24/240/1440 orderings-and-parities of tetrahedral (with and without lone pair), square planar, trigonal "
-    "bipyramidal and octahedral stars in two identifier pools with permuted insertion order, two-unit graphs, all E/Z double "
+    "bipyramidal and octahedral stars in two identifier pools with permuted insertion order, two-unit graphs, chains of two / "
+    "three directly bonded coordination centres of every class pair, centres with a stereogenic ligand atom, all E/Z double "
     "bonds over 5 substituent elements with regenerated bond orders, and imported organics: export then import by atom-map "
     "number reproduces atoms, elements, bonds and spatially identical descriptors; export leaves the graph unchanged.",
     "Trusted: RDKit as the carrier; identifiers must be positive (atom-map numbers).", "DESIGN.md 5/C13")
 CHECKS["C14"] = (
     ENUM + " (all stereoisomers x embedding seeds; all ligand placements on SP/TB/OH templates x bond orders x noise)",
-    "Every stereoisomer of the listed organics embedded with fixed ETKDG seeds: annotation graph equals coordinate graph after "
+    "Every stereoisomer of the listed organics embedded with fixed ETKDG seeds, in the parsed atom order and renumbered by "
+    "RDKit (reversed, rotated): annotation graph equals coordinate graph after "
     "removing planar-bond descriptors of non-double bonds; for SP/TB/OH every placement of distinct ligands on the template "
     "vertices (24/120/720) x bond-creation orders x centre position x noise: the label RDKit assigns from 3D, imported, gives a "
     "descriptor spatially identical to the one perceived from the same coordinates.",
